@@ -4,13 +4,13 @@ import json, os, shutil, sys
 pid, v, breaks, needs, detected = sys.argv[1:6]
 missed = sys.argv[6] if len(sys.argv) > 6 else ''
 src = f'/tmp/seed2/{pid}out/{v}'
-dst = f'/verif/seeded/{pid}{v}'
+dst = f'/verif/seeded/{pid}{os.environ.get("SEED_SUFFIX", v)}'
 os.makedirs(dst, exist_ok=True)
 for f in ('patch.diff', 'demo.py', 'notes.md'):
     shutil.copy(os.path.join(src, f), os.path.join(dst, f))
 log = open(os.path.join(src, 'confirm.log')).read().splitlines()
 meta = {
-    'property': pid, 'variant': v, 'origin': 'independent sub-agent given only the property text and a scratch worktree',
+    'property': pid, 'variant': v, 'origin': 'independent sub-agent given only the property text and a scratch worktree' + (' (round 2: asked for changes different from round 1)' if os.environ.get('SEED_SUFFIX') else ''),
     'breaks': breaks, 'needs_to_manifest': needs,
     'confirmed_by_me': {
         'commands': [f'cd /tmp/seed2/{pid}w && git apply patch.diff',
